@@ -107,7 +107,7 @@ contract(_Q + '.ResultElement.pathresult', name=_Q + '.ResultElement.pathresult[
 # ---------------------------------------------------------------- aggregation: identical requests answered once, bandwidths summed
 from .c_request import _RQ, _SAME
 _RQA = dict(_RQ, path_bandwidth=real(), N=lst(integer()), M=lst(integer()))
-contract(_Q + '.requests_aggregation', name=_Q + '.requests_aggregation[two requests, no disjunction]', props=['C19', 'C16', 'C13'],
+contract(_Q + '.requests_aggregation', name=_Q + '.requests_aggregation[two requests, no disjunction]', props=['C19', 'C16'],
          params={'pathreqlist': lst(obj('<ns>', **_RQA), obj('<ns>', **_RQA)), 'disjlist': const([])},
          requires=[('ids_unique', 'pathreqlist[0].request_id != pathreqlist[1].request_id')],
          let={'req1': 'old(pathreqlist[0])', 'req2': 'old(pathreqlist[1])', 'same': _SAME + ' and req2.tsp_mode is not None', 'out': 'result[0]'},
